@@ -43,6 +43,10 @@ def alive_vars(c, truth, obv, inplace=False):
     for a, t in implied_atoms(c, truth):
         e, tt = normalize_cond(a, t)
         e = strip(e)
+        # the pointer itself is NULL on this edge: nothing can be called through it or read from it, and the loops
+        # that copy it (`ob = next_ob`) test it before they use it
+        if not tt and e.get("k") == "Ref" and e.get("id") in obv:
+            out.append(e.get("id"))
         # !(X->flags & O_DESTRUCTED)
         if not inplace and not tt and e.get("k") == "Bin" and e.get("op") == "&":
             for x, y in ((strip(e["L"]), e["R"]), (strip(e["R"]), e["L"])):
